@@ -304,7 +304,7 @@ var tryPool = []tryFile{
 	{"/index.html", false, ""}, {"/sub/", false, ""}, {"/*.txt", false, ""}, {"/s*/b.txt", false, ""}, {"/[", false, ""},
 	{"/../outside.txt", false, ""}, {"../../etc/passwd", false, ""}, {"/sub", true, ""}, {"/s?b/*/c.txt", false, ""},
 	{"/", true, ""}, {"index.txt", false, ""}, {"/sub/deep/", false, ""}, {"/x\\*y", false, ""}, {"/*/", false, ""}, {"/missing", false, ""},
-	{"", false, ""}, {"/.git/*", false, ""}, {"/a\\", false, ""}, {"/[a-s]ub/[b]*", false, ""},
+	{"", false, ""}, {"/.git/*", false, ""}, {"/a", false, "\\"}, {"/[a-s]ub/[b]*", false, ""},
 }
 
 func genMatch(rng *core.Rand) string {
@@ -345,18 +345,18 @@ func (prop) Generate(rng *core.Rand, tier string, emit func(string)) {
 	case "search":
 		scale = 3
 	}
-	for i := 0; i < 1500*scale; i++ {
+	for i := 0; i < 2000*scale; i++ {
 		emit("clean " + core.Hex(randFrom(rng, cleanAlpha, 8)))
 	}
 	dummy := &world{cwd: "/w", R: "/srv/site", rel: []string{"a.txt", "sub/b.txt", "secret.txt"}}
-	for i := 0; i < 2500*scale; i++ {
+	for i := 0; i < 4000*scale; i++ {
 		req := genPath(rng, dummy)
 		if rng.Chance(1, 4) {
 			req = randFrom(rng, cleanAlpha, 8)
 		}
 		emit("join " + core.Hex(rng.Pick(joinRoots)) + " " + core.Hex(req))
 	}
-	for i := 0; i < 5000*scale; i++ {
+	for i := 0; i < 8000*scale; i++ {
 		pat := randFrom(rng, patAlpha, 6)
 		name := randFrom(rng, nameAlpha, 5)
 		if rng.Chance(1, 3) { // a name that has a chance to match: the pattern with metas replaced
@@ -369,10 +369,10 @@ func (prop) Generate(rng *core.Rand, tier string, emit func(string)) {
 			emit("match " + core.Hex(h) + " " + core.Hex(n))
 		}
 	}
-	for i := 0; i < 6000*scale; i++ {
+	for i := 0; i < 30000*scale; i++ {
 		emit(genServe(rng))
 	}
-	for i := 0; i < 2500*scale; i++ {
+	for i := 0; i < 10000*scale; i++ {
 		emit(genMatch(rng))
 	}
 }
